@@ -283,10 +283,17 @@ func sortInts(a []int) {
 
 // scenarioHello regenerates the hello of scenario idx (and whether it is a GREASE variant of idx-1).
 func scenarioHello(seed int64, idx int) (hello, []byte, bool) {
+	// groups of four: a hello, an unrelated one, the second with its GREASE values replaced, and a sibling of the
+	// second that differs from it in exactly one fingerprint field (sent to the same service instance right
+	// after it: a fingerprint must not depend on hellos seen before)
 	base := idx
-	variant := idx%3 == 2
+	variant := idx%4 == 2
+	sib := idx%4 == 3
 	if variant {
 		base = idx - 1
+	}
+	if sib {
+		base = idx - 2
 	}
 	r := core.NewRng(seed, "C13", base)
 	h := mkHello(r)
@@ -294,7 +301,59 @@ func scenarioHello(seed int64, idx int) (hello, []byte, bool) {
 	if variant {
 		h = regrease(h, core.NewRng(seed, "C13/regrease", idx))
 	}
+	if sib {
+		h = sibling(h, core.NewRng(seed, "C13/sibling", idx))
+	}
 	return h, h.marshal(random), variant
+}
+
+// sibling returns the hello changed in one fingerprint field only: the supported groups, the point formats, the
+// order of the cipher suites, the order of two extensions, or the version.
+func sibling(h hello, r *core.Rng) hello {
+	o := h
+	o.Ciphers = append([]uint16(nil), h.Ciphers...)
+	o.Exts = nil
+	for _, e := range h.Exts {
+		o.Exts = append(o.Exts, ext{e.T, append([]byte(nil), e.Body...)})
+	}
+	find := func(t uint16) int {
+		for i, e := range o.Exts {
+			if e.T == t {
+				return i
+			}
+		}
+		return -1
+	}
+	choice := r.Intn(6)
+	if g := find(10); g >= 0 && choice < 3 {
+		var c []byte
+		for j := r.Range(1, 5); j > 0; j-- {
+			v := uint16(r.PickI([]int{23, 24, 25, 29, 30, 256, 257, 4588}))
+			c = append(c, byte(v>>8), byte(v))
+		}
+		o.Exts[g].Body = append([]byte{byte(len(c) >> 8), byte(len(c))}, c...)
+		if string(o.Exts[g].Body) != string(h.Exts[g].Body) {
+			return o
+		}
+	}
+	if p := find(11); p >= 0 && choice < 5 {
+		n := r.Range(0, 3)
+		nb := append([]byte{byte(n)}, []byte{2, 1, 0}[:n]...)
+		if string(nb) != string(o.Exts[p].Body) {
+			o.Exts[p].Body = nb
+			return o
+		}
+	}
+	if len(o.Ciphers) > 1 && o.Ciphers[0] != o.Ciphers[len(o.Ciphers)-1] && r.Bool() {
+		o.Ciphers[0], o.Ciphers[len(o.Ciphers)-1] = o.Ciphers[len(o.Ciphers)-1], o.Ciphers[0]
+		return o
+	}
+	if len(o.Exts) > 1 && o.Exts[0].T != o.Exts[len(o.Exts)-1].T && r.Bool() {
+		o.Exts[0], o.Exts[len(o.Exts)-1] = o.Exts[len(o.Exts)-1], o.Exts[0]
+		return o
+	}
+	o.Vers = []uint16{0x0301, 0x0302, 0x0303, 0x0300}[(int(h.Vers)+1)%4]
+	return o
 }
 
 type params struct {
@@ -439,7 +498,13 @@ func (prop) Judge(b core.Batch, recs []core.Rec, exits []core.Exit) []core.Resul
 			case ob.Digest == "":
 				fail("digest-empty|"+emptyClass(h), fmt.Sprintf("the connection's event (%s) carries an empty JA3 digest; specification gives %s for %s", ob.Type, ref.Digest(), ref.String()))
 			case ob.Digest != ref.Digest():
-				fail("digest-differs|"+greaseClass(h), fmt.Sprintf("recorded JA3 digest %s, specification gives %s (%s)", ob.Digest, ref.Digest(), clip(ref.String(), 200)))
+				cls := greaseClass(h)
+				what := fmt.Sprintf("recorded JA3 digest %s, specification gives %s (%s)", ob.Digest, ref.Digest(), clip(ref.String(), 200))
+				if idx%4 == 3 && digests[idx-2] == ob.Digest {
+					cls += "|digest-of-an-earlier-hello-that-differs-in-one-field"
+					what += "; the recorded digest is the one of the hello sent two connections earlier, which differs in one fingerprint field"
+				}
+				fail("digest-differs|"+cls, what)
 			}
 			if ob.Event && ob.Digest != "" && ob.SNI != h.SNI {
 				fail("server-name", fmt.Sprintf("recorded server name %q, SNI sent %q", ob.SNI, h.SNI))
